@@ -23,7 +23,6 @@ import (
 	"fmt"
 	"io"
 	"math"
-	"slices"
 
 	"seehuhn.de/go/membudget"
 	"seehuhn.de/go/pdf/graphics/bitmap"
@@ -803,9 +802,22 @@ func (d *decoder) processTextRegion(hdr *segmentHeader, data []byte) error {
 	// collect symbols from referred segments, skipping SDs whose
 	// exports are already included by a later SD in the ref list
 	// (an SD that refers to earlier SDs re-exports their symbols)
+	// subsumed holds every segment named by a later entry of the list; it
+	// is computed once, in time linear in the size of the segment headers.
 	refSet := make(map[uint32]bool)
+	subsumed := make(map[uint32]bool)
 	for _, refNum := range hdr.RefSegments {
+		if refSet[refNum] {
+			continue
+		}
 		refSet[refNum] = true
+		if seg, ok := d.segments[refNum]; ok && seg.header != nil {
+			for _, r := range seg.header.RefSegments {
+				if r < refNum {
+					subsumed[r] = true
+				}
+			}
+		}
 	}
 	var symbols []*bitmap.Bitmap
 	for _, refNum := range hdr.RefSegments {
@@ -814,25 +826,10 @@ func (d *decoder) processTextRegion(hdr *segmentHeader, data []byte) error {
 			continue
 		}
 		// skip this SD if a later referenced SD already refers to it
-		subsumed := false
-		if ref.header != nil && ref.header.Type == segSymbolDict {
-			for _, laterRef := range hdr.RefSegments {
-				if laterRef <= refNum {
-					continue
-				}
-				if laterSeg, ok := d.segments[laterRef]; ok && laterSeg.header != nil {
-					if slices.Contains(laterSeg.header.RefSegments, refNum) {
-						subsumed = true
-					}
-				}
-				if subsumed {
-					break
-				}
-			}
+		if ref.header != nil && ref.header.Type == segSymbolDict && subsumed[refNum] {
+			continue
 		}
-		if !subsumed {
-			symbols = append(symbols, ref.symbols...)
-		}
+		symbols = append(symbols, ref.symbols...)
 	}
 
 	var bm *bitmap.Bitmap
